@@ -125,7 +125,11 @@ pub fn scenario(seed: u64) -> Made {
     let mut regs: Vec<RegInfo> = Vec::new();
     for s in 0..n_svcs {
         let ty = *rng.pick(&["_t._udp.local.", "_http._tcp.local.", "_p._sub._t._udp.local."]);
-        let inst = if rng.chance(1, 3) { format!("Svc{s}") } else { format!("svc{s}") };
+        let inst = match rng.below(9) {
+            0..=2 => format!("Svc{s}"),
+            3 => format!("\u{c9}cole{s}"),
+            _ => format!("svc{s}"),
+        };
         let val = format!("v{s}");
         let mut reg = World::reg_info(ty, &inst, "box.local.", &all_addrs, 1000 + s as u16, &[("k", Some(val.as_bytes()))]);
         reg.requires_probe = !rng.chance(1, 6);
